@@ -8,6 +8,14 @@ CHECKS = {
             "All reachable states of the real State object under a finite operation menu (fixpoint on small toy graphs, depth-bounded on larger ones and on every shipped model graph); every transition is executed on the implementation and compared with a from-scratch evaluation.",
             "Tiny value alphabets; partial reverts only under the documented precondition; PYTHONHASHSEED=0, one torch thread."),
 }
+CHECKS.update({
+    "C02": ("model_checking", "phased explicit-state BFS (proposal / allowed reads / every rejection mask / following history) on the real State + exhaustive scripted acceptance patterns through the real samplers",
+            "Every reachable state of the proposal-decision protocol on the real State of each model kind (all warm-up/read subsets, a proposal alphabet incl. overflowing and non-finite values, every per-individual mask, bounded following history) and every scripted acceptance pattern of the four samplers; after every transition the state is compared with a from-scratch evaluation of where(rejected, before, proposed).",
+            "Proposal alphabets and cohort sizes (2-3 individuals) are small; following history depth-bounded; PYTHONHASHSEED=0."),
+    "C19": ("model_checking", "exhaustive stepping of the real (iteration, temperature) machine over a configuration grid + exhaustive binary acceptance-history tree through the real adaptive-scale code",
+            "Every configuration of the annealing grid is run on the real algorithm object (initialisation + one update per iteration, plus complete tiny fits) and every binary acceptance history up to three windows is fed through every sampler class; invariants are checked on every transition.",
+            "Default (linear) annealing scheme only; grids as listed in the evidence bounds; reference plateau length max(1, A // (P-1))."),
+})
 NOT_APPLICABLE = {}
 
 def main():
